@@ -69,7 +69,7 @@ def gen_history(rng, fam):
     for r in range(nruns):
         run = {'workers': rng.choice((1, 2, 2, 3, 4)),
                'via': rng.choice(('execute', 'execute', 'direct')),
-               'outcome': [rng.choice(('raise', 'failed'))
+               'outcome': [rng.choice(('raise', 'failed', 'clobber'))
                            if rng.random() < p_fail else 'ok'
                            for _ in tasks],
                'lose_env': [i for i in range(ntask)
@@ -211,6 +211,9 @@ def make_tasks_factory(scn, r, root, mods, log, counter):
             'payload': {'run': r, 'deep': {'x': [exec_id, i]}}}}
         if out == 'failed':
             return upd, status_enum.FAILED
+        if out == 'clobber':
+            # an update that cannot be merged: the task fails
+            return {specs[i]['name']: 'text'}, status_enum.DONE
         return upd, status_enum.DONE
 
     class ProbeTask(task_mod.Task):
@@ -288,6 +291,7 @@ def run_history(scn, chooser):
     res.sim = agg
     res.violations = []
     res.facts = {}
+    res.crashed_runs = set()
     log = []
     counter = {'seq': 0, 'exec': 0}
     clock = 1.0e6
@@ -391,6 +395,7 @@ def run_history(scn, chooser):
                 break
             if crashed:
                 _fact(res, 'runs-crashed-while-writing')
+                res.crashed_runs.add(r)
                 continue
             final = snapshot(holder['env'], scn, here)
             prev = final
@@ -427,10 +432,12 @@ def carried_over(scn, r, here, lost, prev, init, res):
     specs = scn['tasks']
     for i in here:
         ent = prev.get(i)
-        if i in lost or not ent or 'output_dir' not in ent:
+        if i in lost or not ent:
             continue
         got = init.get(i)
         if ent.get('status') == 'DONE':
+            if 'output_dir' not in ent:
+                continue
             _fact(res, 'judged-carried-over-entries')
             if got is None:
                 res.violations.append((
@@ -482,6 +489,13 @@ def judge(scn, r, here, init, final, log, res):
                  'count': executed_now[i]}))
             return
     # (a) DONE tasks are newer than their DONE dependencies
+    # last execution of every task in a run that went through to the end (a
+    # run that crashed while writing the environments may or may not have
+    # persisted what it executed: old or new, both are right)
+    latest = {}
+    for rec in log:
+        if rec['run'] not in res.crashed_runs:
+            latest[rec['task']] = rec['id']
     for i in here:
         if final[i]['status'] != 'DONE':
             continue
@@ -491,6 +505,15 @@ def judge(scn, r, here, init, final, log, res):
             res.violations.append((
                 'done-without-execution', 'done-without-execution',
                 {'run': r, 'task': specs[i]['name']}))
+            return
+        if prod_t['id'] < latest.get(i, 0):
+            # the task has been executed again since, and that execution did
+            # not end DONE: its old results are not its results any more
+            res.violations.append((
+                'superseded', 'done-with-the-results-of-a-superseded-execution',
+                {'run': r, 'task': specs[i]['name'],
+                 'results_from_run': prod_t['run'],
+                 'last_executed_in_run': by_id[latest[i]]['run']}))
             return
         for j in specs[i]['hard']:
             if j in hereset and final[j]['status'] in ('FAILED', 'SKIPPED'):
